@@ -298,6 +298,24 @@ func init() {
 				}
 			}
 			o.HTTP = c.Idx%4 == 1 // what the HTTP API reports about jobs that could not be started (and all others)
+			if c.Idx%12 == 5 {
+				// "at most once" for every history of other jobs: delayed pipelines whose definition is reloaded (delay
+				// removed / added) while jobs wait, with jobs queued behind them
+				all := gen.AllClasses()
+				var delayed []gen.ConfigClass
+				for _, cl := range all {
+					if cl.Delay && !cl.Replace {
+						delayed = append(delayed, cl)
+					}
+				}
+				o.NPipes = 1
+				o.Classes = []gen.ConfigClass{delayed[(c.Idx/12)%len(delayed)]}
+				o.WReload = 12
+				o.WFire = 10
+				o.WSchedule = 40
+				o.FailProb = 0
+				o.Pipe.CyclicProb = 0
+			}
 			return histCase(c, o, 300)
 		},
 		Exhaustive:  func(t string) bool { return false },
